@@ -866,6 +866,126 @@ longpath_case(long idx, void *ctx)
     mc_count("longpath_cases", 1);
 }
 
+/* two open files that hold an element under the SAME tag/ref in special storage: access ids (and data set ids) of the two
+   files, alive together, each deliver their own file's data */
+#define PATHA "/vmem/c13_A.hdf"
+#define PATHB "/vmem/c13_B.hdf"
+static void
+twofile_special_case(long idx, void *ctx)
+{
+    (void)ctx;
+    static const char *KIND[] = {"linked blocks", "external file", "RLE-compressed", "chunked data set", "unlimited data set", "external data set"};
+    int kind = (int)(idx % 6), order = (int)(idx / 6 % 2), rorder = (int)(idx / 12 % 2);
+    int cfg[4] = {-4, kind, order, rorder};
+    mc_set_config(cfg, 4, "family=two files, same tag/ref");
+    mc_set_case("%s under the same tag/ref in files A and B; %s opened first, %s read first, both ids alive", KIND[kind], order ? "B" : "A", rorder ? "second-opened" : "first-opened");
+    const char *path[2] = {PATHA, PATHB};
+    const char *extn[2] = {"/vmem/c13_extA.dat", "/vmem/c13_extB.dat"};
+    uint8       d[2][16];
+    int         len[2] = {12, 10};
+    for (int i = 0; i < 16; i++)
+        d[0][i] = (uint8)(1 + i), d[1][i] = (uint8)(101 + i);
+    for (int x = 0; x < 2; x++) {
+        vfs_remove_file(path[x]);
+        vfs_remove_file(extn[x]);
+        if (kind < 3) {
+            int32 f = Hopen(path[x], DFACC_CREATE, 4), a = FAIL;
+            if (kind == 0)
+                a = HLcreate(f, 1000, 7, 4, 2);
+            else if (kind == 1)
+                a = HXcreate(f, 1000, 7, extn[x], 0, 0);
+            else {
+                model_info mi;
+                comp_info  ci;
+                memset(&mi, 0, sizeof mi);
+                memset(&ci, 0, sizeof ci);
+                a = HCcreate(f, 1000, 7, COMP_MODEL_STDIO, &mi, COMP_CODE_RLE, &ci);
+            }
+            if (f == FAIL || a == FAIL || Hwrite(a, len[x], d[x]) != len[x] || Hendaccess(a) == FAIL || Hclose(f) == FAIL) {
+                mc_harness_error("cannot build file %d of the two-file case", x);
+                return;
+            }
+        }
+        else {
+            int32 S = SDstart(path[x], DFACC_CREATE), dm[1] = {kind == 4 ? SD_UNLIMITED : len[x]};
+            int32 s = SDcreate(S, "d", DFNT_UINT8, 1, dm), z = 0, c = len[x];
+            HDF_CHUNK_DEF cd;
+            memset(&cd, 0, sizeof cd);
+            cd.chunk_lengths[0] = 4;
+            int rc = 0;
+            if (kind == 3)
+                rc = SDsetchunk(s, cd, HDF_CHUNK);
+            if (kind == 5)
+                rc = SDsetexternalfile(s, extn[x], 0);
+            if (S == FAIL || s == FAIL || rc == FAIL || SDwritedata(s, &z, NULL, &c, d[x]) == FAIL || SDendaccess(s) == FAIL || SDend(S) == FAIL) {
+                mc_harness_error("cannot build SD file %d of the two-file case", x);
+                return;
+            }
+        }
+    }
+    int   first = order, second = !order;
+    uint8 got[2][32];
+    memset(got, 0xEE, sizeof got);
+    if (kind < 3) {
+        int32 f[2], a[2];
+        f[first]  = Hopen(path[first], DFACC_READ, 0);
+        f[second] = Hopen(path[second], DFACC_READ, 0);
+        a[first]  = Hstartread(f[first], 1000, 7);
+        a[second] = Hstartread(f[second], 1000, 7);
+        if (f[0] == FAIL || f[1] == FAIL || a[0] == FAIL || a[1] == FAIL) {
+            mc_violation("twofile:open", "opening the two files and starting a read on element (1000,7) of each failed");
+            return;
+        }
+        if (a[0] == a[1])
+            mc_violation("twofile:same-id", "the two access ids are equal");
+        for (int pass = 0; pass < 2; pass++) {
+            int   x = (pass == 0) == (rorder == 0) ? first : second;
+            int32 l = -1;
+            if (Hinquire(a[x], NULL, NULL, NULL, &l, NULL, NULL, NULL, NULL) == FAIL || l != len[x])
+                mc_violation("twofile:wrong-object:length", "the access id of file %c reports an element of %d bytes, that file holds %d (%s)", 'A' + x, (int)l, len[x], KIND[kind]);
+            /* in two pieces, the other file's id is used in between */
+            int32 r1 = Hread(a[x], 5, got[x]);
+            int32 l2 = -1;
+            Hinquire(a[!x], NULL, NULL, NULL, &l2, NULL, NULL, NULL, NULL);
+            int32 r2 = Hread(a[x], len[x] - 5, got[x] + 5);
+            if (r1 != 5 || r2 != len[x] - 5 || memcmp(got[x], d[x], (size_t)len[x]))
+                mc_violation("twofile:wrong-object:data", "the access id of file %c does not deliver that file's element (%s; first bytes read %u %u, stored %u %u)", 'A' + x, KIND[kind],
+                             got[x][0], got[x][1], d[x][0], d[x][1]);
+        }
+        if (Hendaccess(a[first]) == FAIL || Hendaccess(a[second]) == FAIL || Hclose(f[first]) == FAIL || Hclose(f[second]) == FAIL)
+            mc_violation("twofile:close", "releasing the two access ids and files failed");
+    }
+    else {
+        int32 S[2], s[2];
+        S[first]  = SDstart(path[first], DFACC_READ);
+        S[second] = SDstart(path[second], DFACC_READ);
+        s[first]  = SDselect(S[first], 0);
+        s[second] = SDselect(S[second], 0);
+        if (S[0] == FAIL || S[1] == FAIL || s[0] == FAIL || s[1] == FAIL) {
+            mc_violation("twofile:open", "opening the two SD files and selecting data set 0 of each failed");
+            return;
+        }
+        for (int pass = 0; pass < 3; pass++) {
+            int   x = (pass != 1) == (rorder == 0) ? first : second;
+            int32 st = pass == 2 ? 5 : 0, c = pass == 2 ? len[x] - 5 : 5;
+            if (SDreaddata(s[x], &st, NULL, &c, got[x] + st) == FAIL)
+                mc_violation("twofile:read-failed", "SDreaddata through the id of file %c failed (%s)", 'A' + x, KIND[kind]);
+        }
+        /* the id read in passes 0 and 2 has been read completely, the other one its first 5 bytes */
+        int full = rorder == 0 ? first : second, part = !full;
+        if (memcmp(got[full], d[full], (size_t)len[full]) || memcmp(got[part], d[part], 5))
+            mc_violation("twofile:wrong-object:data", "data set ids of two files alive together: file %c's id does not deliver that file's data (%s)",
+                         memcmp(got[full], d[full], (size_t)len[full]) ? 'A' + full : 'A' + part, KIND[kind]);
+        if (SDendaccess(s[first]) == FAIL || SDendaccess(s[second]) == FAIL || SDend(S[first]) == FAIL || SDend(S[second]) == FAIL)
+            mc_violation("twofile:close", "releasing the two data sets and files failed");
+    }
+    for (int x = 0; x < 2; x++) {
+        vfs_remove_file(path[x]);
+        vfs_remove_file(extn[x]);
+    }
+    mc_count("twofile_special_cases", 1);
+}
+
 int
 C13_main(const char *tier, const char *replay)
 {
@@ -887,6 +1007,10 @@ C13_main(const char *tier, const char *replay)
             longpath_case(cfg[1] + 6 * cfg[2] + 12 * cfg[3], NULL);
             return 0;
         }
+        if (cfg[0] == -4) {
+            twofile_special_case(cfg[1] + 6 * cfg[2] + 12 * cfg[3], NULL);
+            return 0;
+        }
         mc_set_config(cfg, 1, "family=%s", FAMN[cfg[0]]);
         printf("replay C13: family %s, %d ops\n", FAMN[cfg[0]], nops);
         if (setup(cfg[0]))
@@ -903,6 +1027,9 @@ C13_main(const char *tier, const char *replay)
     mc_round_end();
     mc_round_begin("two files under long paths with a common prefix");
     mc_foreach(24, longpath_case, NULL, 1, 120);
+    mc_round_end();
+    mc_round_begin("two open files with a special element under the same tag/ref, ids alive together");
+    mc_foreach(24, twofile_special_case, NULL, 1, 120);
     mc_round_end();
     for (int depth = thorough ? 4 : dmax; depth <= dmax; depth++) {
         char label[48];
